@@ -433,6 +433,22 @@ func init() {
 			}
 		}
 		if ctx.Replay != nil {
+			var probe struct {
+				Cr []json.RawMessage `json:"cr"`
+			}
+			if json.Unmarshal(ctx.Replay, &probe) == nil && len(probe.Cr) > 0 {
+				// a case of the concurrent-creation stream
+				var cc c20Case
+				if err := json.Unmarshal(ctx.Replay, &cc); err != nil {
+					fatal(err)
+				}
+				_, _, fail := c20RunCache(&cc)
+				ctx.Case(cc, "", "concurrent-creation-colliding-specs", "")
+				if fail != "" {
+					ctx.Fail("one_correct_bucket_tiling_no_panic", "histograms created concurrently: "+fail, cc, nil)
+				}
+				return
+			}
 			var c c03Case
 			if err := json.Unmarshal(ctx.Replay, &c); err != nil {
 				fatal(err)
@@ -450,6 +466,18 @@ func init() {
 		for i := 0; i < n; i++ {
 			c := c03Gen(ctx.R, i, ctx.Thorough())
 			one(&c)
+		}
+		// histograms created concurrently under one root with bucket sets that collide in the
+		// internal bucket cache (stream shared with C20): every histogram must still deliver
+		// its samples under its own bounds (direct predicate only; the schedule is the runtime's)
+		nconc := ctx.N(60, 1500)
+		for k := 0; k < nconc; k++ {
+			c := c20GenCache(ctx.R, true)
+			_, _, fail := c20RunCache(&c)
+			ctx.Case(c, "", "concurrent-creation-colliding-specs", "")
+			if fail != "" {
+				ctx.Fail("one_correct_bucket_tiling_no_panic", "histograms created concurrently: "+fail, c, nil)
+			}
 		}
 		for k, v := range classes {
 			ctx.Res.Histogram[k] = v
